@@ -212,9 +212,9 @@ Definition rate_att (q : nat * list nat) (ci : nat) (choices : list (nat * nat))
 
 (* courses in key order; keep (sort_key, course) for offered ones, remember skipped ids *)
 Fixpoint goc (track_id : Z) (ign_c : bool) (ffield ofield : option string) (l : list (string * json))
-  : result (list (string * (rcourse * (option json * option json))) * list Z) :=
+  : result (list (string * (rcourse * (option json * option json))) * list Z * nat) :=
   match l with
-  | [] => ROk ([], [])
+  | [] => ROk ([], [], 0)
   | (k, c) :: t =>
       let* cid := ok_or (parse_u64 k) 12 in
       let* (name, st, mn, mx, key) := parse_course cid c track_id in
@@ -222,10 +222,11 @@ Fixpoint goc (track_id : Z) (ign_c : bool) (ffield ofield : option string) (l : 
       let* fo := (if skip then ROk (None, None) else
                   let* _ := ok_or (match get "fields" c with Some v => as_object v | None => None end) 13 in
                   match get "fields" c with Some fl => ROk (num_field fl ffield, num_field fl ofield) | None => ROk (None, None) end) in
-      let* (cs, sk) := goc track_id ign_c ffield ofield t in
-      ROk (if skip then (cs, cid :: sk)
+      let* (cs, sk, nc) := goc track_id ign_c ffield ofield t in
+      (* nc: num_ignored_inactive_courses -- only the CANCELLED courses skipped because of --ignore-cancelled *)
+      ROk (if skip then (cs, cid :: sk, match st with Cancelled => S nc | _ => nc end)
            else ((key, ({| rc_dbid := cid; rc_name := name; rc_min := mn; rc_max := mx; rc_instr := []; rc_fixed := false;
-                           rc_hidden := []; rc_inv_instr := 0; rc_inv_att := 0 |}, fo)) :: cs, sk))
+                           rc_hidden := []; rc_inv_instr := 0; rc_inv_att := 0 |}, fo)) :: cs, sk, nc))
   end.
 
 (* the registrations in key order; running state: next participant index, courses, participants so far (reversed), quality info of
@@ -284,7 +285,7 @@ Definition read_fields (data : json) (track : option Z) (ign_c ign_a : bool) (ff
   let* parts := ok_or (match get "event" data with Some ev => match as_object ev with Some _ => match get "parts" ev with Some p => as_object p | None => None end | None => None end | None => None end) 10 in
   let* (part_id, track_id, _td) := find_track parts track in
   let* cdata := ok_or (match get "courses" data with Some v => as_object v | None => None end) 11 in
-  let* (keyed, skipped) := goc track_id ign_c ffield ofield (obj_items cdata) in
+  let* (keyed, skipped, ncanc) := goc track_id ign_c ffield ofield (obj_items cdata) in
   let courses0 := map (fun x : string * (rcourse * (option json * option json)) => fst (snd x)) (sort_by fst keyed) in
   let fields0 := map (fun x : string * (rcourse * (option json * option json)) => snd (snd x)) (sort_by fst keyed) in
   let cmap : list (Z * option nat) :=
@@ -297,7 +298,7 @@ Definition read_fields (data : json) (track : option Z) (ign_c ign_a : bool) (ff
   (* (track given or not: the `?` inside then_some is evaluated eagerly in the Rust code) *)
   let* _sn := ok_or (match get "shortname" _td with Some v => as_str v | None => None end) 51 in
   ROk (ps, cs', {| ra_event := eid; ra_track := track_id; ra_part := part_id; ra_qual := if ign_a then Some q else None;
-                    ra_ign_courses := List.length skipped; ra_ign_regs := nign; ra_fields := fields0 |}).
+                    ra_ign_courses := ncanc; ra_ign_regs := nign; ra_fields := fields0 |}).
 
 Definition read_full (data : json) (track : option Z) (ign_c ign_a : bool) : result (list rpart * list rcourse * ramb) :=
   read_fields data track ign_c ign_a None None.
